@@ -51,6 +51,8 @@ def main():
     # ---- 10.8
     head = (VERIF / 'tools' / 'design_10_8_head.md').read_text().rstrip() + '\n'
     tail = (VERIF / 'tools' / 'design_10_8_tail.md').read_text().rstrip() + '\n'
+    tail_head, _, tail_rest = tail.partition('\n### 10.9')
+    tail_rest = '### 10.9' + tail_rest
     seeds = sorted(((prop_of(st, t), k, t) for k, (st, t) in enumerate(lines_of('SEED')) if later_round(t)),
                    key=lambda x: (x[0], x[1]))
     body = [head, '',
@@ -63,7 +65,32 @@ def main():
     body += [f'* {t}' for _st, t in lines_of('FALSEALARM') if later_round(t)]
     body += ['', '**Notes** (recorded, not flagged):', '']
     body += [f'* {t}' for _st, t in lines_of('NOTE') if later_round(t)]
-    body += ['', tail]
+    body += ['', tail_head, '', '| harmless change | verified on /repo | verdict of the checks anchored in the touched files |', '|---|---|---|']
+    import glob
+    import json
+    for f in sorted(glob.glob(str(VERIF / 'seeded' / 'harmless' / '*' / 'meta.json'))):
+        m = json.loads(Path(f).read_text())
+        checks = m.get('checks') or {}
+        loud = {k: v for k, v in checks.items() if v.get('rc')}
+        base, num = m['id'][:-1], int(m['id'][-1])
+        newer = [d for d in (VERIF / 'seeded' / 'harmless').glob(base + '*') if d.name[-1].isdigit() and int(d.name[-1]) > num]
+        if newer or not m.get('applies'):
+            verdict = ('no longer applies to HEAD after later fix commits; superseded by the re-based `'
+                       + (sorted(d.name for d in newer)[-1] if newer else '?') + '`')
+        elif not loud:
+            verdict = f'all {len(checks)} checks silent (exit 0)'
+        else:
+            parts = []
+            for k, v in sorted(loud.items()):
+                sig = v.get('replay_signature')
+                if isinstance(sig, list):
+                    what = 'no-failing-input-found (' + (', '.join(x.split('.')[-1] for x in sig[:2]) + (' …' if len(sig) > 2 else '')) + ')'
+                else:
+                    what = f'VIOLATION {sig}'
+                parts.append(f'{k}: {what}')
+            verdict = '; '.join(parts) + f'; the other {len(checks) - len(loud)} silent'
+        body.append(f"| {m['id']} | {m.get('repo_head', '')} | {verdict} |")
+    body += ['', tail_rest]
     block = BEGIN + '\n' + '\n'.join(body) + END + '\n'
     if BEGIN in s:
         i, j = s.index(BEGIN), s.index(END) + len(END) + 1
